@@ -132,14 +132,14 @@ def sample(lst, n, seed):
     return [lst[i] for i in idx]
 
 
-def mc_module(name, outlines, oracle_list, crash_sets=((),), cfg_extra='', lag=0):
+def mc_module(name, outlines, oracle_list, crash_sets=((),), cfg_extra='', lag=0, reloads=0):
     tla = '---- MODULE %s ----\nEXTENDS Outline, Json\n' % name
-    tla += 'MCLag == %d\n' % lag
+    tla += 'MCLag == %d\nMCReloads == %d\n' % (lag, reloads)
     tla += 'MCOutlines == %s\n' % tlaval.emit(outlines)
     tla += 'MCOracles == %s\n' % tlaval.emit(oracle_list)
     tla += 'MCCrashSets == <<%s>>\n' % ', '.join('{' + ', '.join(str(i) for i in sorted(c)) + '}' for c in crash_sets)
     tla += 'Report == W.done => PrintT(ToJson(<<"R", W.oi, W.ri, W.ci, W.units, W.result, W.restores, W.waits>>))\n'
     tla += '====\n'
-    cfg = 'SPECIFICATION Spec\nCHECK_DEADLOCK FALSE\nCONSTANTS\n Outlines <- MCOutlines\n Oracles <- MCOracles\n CrashSets <- MCCrashSets\n Lag <- MCLag\n'
+    cfg = 'SPECIFICATION Spec\nCHECK_DEADLOCK FALSE\nCONSTANTS\n Outlines <- MCOutlines\n Oracles <- MCOracles\n CrashSets <- MCCrashSets\n Lag <- MCLag\n Reloads <- MCReloads\n'
     cfg += cfg_extra
     return tla, cfg
